@@ -345,14 +345,66 @@ func c18MaskTag(idx int) int {
 	return 0x420099
 }
 
-// VerifC18_MaskItem: a mask-typed item (src 0 JSON, 1 XML) whose value is an
-// arbitrary text of vLen bytes — names, numbers, hexadecimal, separators in any
-// mix: if the mask reader accepts it, writing the mask again in encoding enc
-// reads back to the same mask and a second writing is byte-identical.
-func VerifC18_MaskItem(src, idx, vLen, form, enc int) {
+// c18MaskNames: the registered names of mask mtag, by increasing bit.
+func c18MaskNames(mtag int) []string {
+	var out []string
+	for _, n := range bitmaskNames[mtag] {
+		if n != "" {
+			out = append(out, n)
+		}
+	}
+	return out
+}
+
+// VerifC18_MaskItem: a mask-typed item (src 0 JSON, 1 XML) whose value text has
+// one of the lexical shapes the mask readers accept, with symbolic content:
+// shape 0: k arbitrary bytes; 1: "0x" + k arbitrary ASCII bytes other than separators; 2: k arbitrary ASCII
+// bytes (decimal numbers, signs, separators, spaces); 3: a registered name, one
+// arbitrary ASCII byte (the separator), "0x" + k such bytes; 4: two
+// registered names around one arbitrary ASCII byte. If the mask reader accepts
+// the text, writing the mask again in encoding enc reads back to the same mask
+// and a second writing is byte-identical.
+func VerifC18_MaskItem(src, idx, shape, k, enc int) {
 	mtag := c18MaskTag(idx)
-	val := verifNondetString("value", vLen)
-	c18Form(val, form)
+	names := c18MaskNames(mtag)
+	ascii := func(s string) {
+		for i := 0; i < len(s); i++ {
+			verifAssume(s[i] < 0x80)
+		}
+	}
+	token := func(s string) {
+		for i := 0; i < len(s); i++ {
+			c := s[i]
+			verifAssume(c < 0x80 && c != '|' && c != ' ' && !(c >= '\t' && c <= '\r'))
+		}
+	}
+	var val string
+	switch shape {
+	case 0:
+		val = verifNondetString("value", k)
+	case 1:
+		hex := verifNondetString("value", k)
+		token(hex)
+		val = "0x" + hex
+	case 2:
+		val = verifNondetString("value", k)
+		ascii(val)
+	case 3:
+		if len(names) == 0 {
+			return
+		}
+		sep, hex := verifNondetString("sep", 1), verifNondetString("value", k)
+		ascii(sep)
+		token(hex)
+		val = names[len(names)-1] + sep + "0x" + hex
+	default:
+		if len(names) < 2 {
+			return
+		}
+		sep := verifNondetString("sep", 1)
+		ascii(sep)
+		val = names[0] + sep + names[k%len(names)]
+	}
 	var r reader
 	if src == 0 {
 		m := map[string]any{"tag": "CompromiseDate", "type": "Integer", "value": val}
